@@ -182,6 +182,16 @@ def replay_history(ctx, history):
 
 # ------------------------------------------------------------------ stability of the von Karman recursion
 
+@st.composite
+def stab_cases(draw):
+    """The C04 configurations, and beyond them the band just below where the code refuses to construct (L0 of 3e8 .. 5e9
+    pixels): whatever is constructed without complaint must be a stable recursion."""
+    p = draw(c04.vk_cases(24))
+    if draw(st.integers(0, 3)) == 0:
+        p = dict(p, L0=float(p["ps"]) * draw(gen.logfloat(3e8, 5e9)))
+    return p
+
+
 def stab_body(ctx, p):
     from scipy import linalg
     rng = Scripted()
@@ -254,6 +264,6 @@ def self_test():
 
 LAWS = [
     machine_law("history", make_machine, replay_history, {"quick": 60, "thorough": 400}, {"quick": 30, "thorough": 60}, shards={"quick": 6, "thorough": 16}),
-    given_law("vk_stability", c04.vk_cases(24), stab_body, {"quick": 25, "thorough": 200}, shards={"quick": 4, "thorough": 16}),
+    given_law("vk_stability", stab_cases(), stab_body, {"quick": 25, "thorough": 200}, shards={"quick": 4, "thorough": 16}),
     plain_law("long_runs", long_cases, long_body, shards={"quick": 4, "thorough": 4}),
 ]
